@@ -157,3 +157,102 @@ def show(d):
     if k == "list":
         return "(" + " ".join(show(x) for x in d[1]) + ((" . " + show(d[2])) if d[2] is not None else "") + ")"
     return repr(d)
+
+
+# ------------------------------------------------------------------------------------------------ C06: structure and layout
+
+STRUCTURES = [
+    "()", "(a)", "(a b c)", "(a . b)", "(a b . c)", "((a) (b (c)))", "(() ())", "#()", "#(a b)", "#(a #(b) (c . d))", "(a . (b . (c . ())))",
+    "(a . (b c))", "((a . b) . (c . d))", "(#(a) . #(b))", "'a", "'()", "'(a b)", "'#(a)", "''a", "'(a 'b)", "('a . 'b)", "#('a b)", "#(a '(b 'c))",
+    "(a '#(b))", "(quote a)", "(1 -2 #t #f)", "(a (b (c (d (e)))))", "#(#(#(a)))", "('a)", "(a . 'b)",
+]
+
+
+def layouts(text):
+    """the same token sequence laid out differently: every blank replaced / tokens spread; comments between tokens"""
+    import re
+    toks = re.findall(r"#\(|[()']|[^\s()']+", text)
+    out = [text]
+
+    def join(sep_fn):
+        s = ""
+        for i, t in enumerate(toks):
+            s += t
+            if i + 1 < len(toks):
+                nxt = toks[i + 1]
+                need = not (t in ("(", "#(", "'") or nxt == ")")          # a blank is needed only between two atoms / after a closer
+                s += sep_fn(i, need)
+        return s
+    out.append(join(lambda i, need: " " if need else ""))                       # minimal spacing
+    out.append(join(lambda i, need: "\n  "))                                     # one token per line
+    out.append(join(lambda i, need: " \t " if i % 2 else "\r\n"))              # tabs and CRLF
+    out.append(join(lambda i, need: " ; note (\n" if i % 3 == 0 else " "))     # line comments holding a parenthesis
+    out.append(join(lambda i, need: " #| x ( |# " if i % 2 == 0 else " "))     # block comments
+    seen, uniq = set(), []
+    for t in out:
+        if t not in seen:
+            seen.add(t)
+            uniq.append(t)
+    return uniq
+
+
+def _from_reference(d):
+    from scm import reader as R
+    if isinstance(d, R.Sym):
+        return ("sym", d.name)
+    if isinstance(d, R.Lit):
+        if d.kind == "int":
+            return ("int", d.value)
+        if d.kind == "bool":
+            return ("bool", d.value)
+        return (d.kind, d.value)
+    if isinstance(d, R.Dotted):
+        items = [_from_reference(x) for x in d.items]
+        tail = _from_reference(d.tail)
+        if tail[0] == "list":                       # (a . (b c)) is (a b c)
+            return ("list", items + tail[1], tail[2])
+        return ("list", items, tail)
+    if isinstance(d, R.Vec):
+        return ("vec", [_from_reference(x) for x in d.items])
+    if isinstance(d, list):
+        return ("list", [_from_reference(x) for x in d], None)
+    raise ValueError(repr(d))
+
+
+def rule_structure(ctx, rule, rule_layout=None):
+    """parentheses, dotted tails, vector syntax and the quote abbreviation build the structure they denote, whatever the layout: every
+    structure text, in six layouts, read by the crate's own lexer and parser; the oracle is the framework's independent reader"""
+    from scm import reader as R
+    from .ctx import where_of
+    fb = ctx.fb()
+    cd = fb.find("parser::parser::Parser::current_datum", required=False)
+    where = where_of(cd) if cd is not None and not getattr(cd, "missing", False) else None
+    decided = 0
+    thorough = ctx.tier == "thorough"
+    for text in STRUCTURES:
+        try:
+            want = _from_reference(R.read_all(text)[0])
+        except Exception as e:      # the oracle does not read it: not a row
+            continue
+        bad = None
+        n = und = 0
+        for lay in (layouts(text) if thorough else layouts(text)[:4]):
+            r = read(fb, lay + " ")
+            if r[0] == "stuck":
+                und += 1
+                continue
+            n += 1
+            if not (r[0] == "datum" and r[1] == want and r[2] == r[3]) and bad is None:
+                got = show(r[1]) if r[0] == "datum" else ("a syntax error (%s)" % (r[1],) if r[0] == "error" else repr(r[:2]))
+                bad = (lay, got)
+        key = "structure/%s" % text
+        if not n:
+            ctx.undecided(rule, key, "cannot follow the reader on %r" % text, where)
+            continue
+        decided += 1
+        ctx.inst(rule, key, {"layouts": n, "not_followed": und, "agrees": bad is None})
+        ctx.oblige(bad is None)
+        if bad:
+            ctx.report(rule_layout if (rule_layout and bad[0] != text) else rule, key,
+                       "the text %r is read as %s; it denotes %s" % (bad[0], bad[1], show(want)), where)
+    return decided
